@@ -390,9 +390,11 @@ class PolyLower(object):
             v = self._fresh(key[1])
             name = key[1]
             if name == "exp":
-                self.side += [v > 0, z3.Implies(a <= 0, v <= 1), z3.Implies(a >= 0, v >= 1)]
+                self.side += [v > 0, z3.Implies(a <= 0, v <= 1), z3.Implies(a >= 0, v >= 1),
+                              z3.Implies(a > 0, v > 1), z3.Implies(a < 0, v < 1), v >= 1 + a]
             elif name == "log":
-                self.side += [z3.Implies(a >= 1, v >= 0), z3.Implies(a <= 1, v <= 0)]
+                self.side += [z3.Implies(a >= 1, v >= 0), z3.Implies(a <= 1, v <= 0),
+                              z3.Implies(a > 1, v > 0), z3.Implies(a < 1, v < 0), v <= a - 1]
             elif name in ("tanh", "erf"):
                 self.side += [v > -1, v < 1, z3.Implies(a >= 0, v >= 0), z3.Implies(a <= 0, v <= 0)]
             elif name in ("sin", "cos"):
